@@ -318,6 +318,9 @@ def judge_gen_py(listing, soft, full, safe_map, old, acl_safe):
     try:
         r = run_gen_py(listing, soft, old, acl_safe)
     except Exception as e:  # noqa
+        from mc import core
+        if core.raised_in_harness(e):
+            raise
         return [({"kind": "gen-py-raises", "exc": type(e).__name__}, repr(e)[:400])]
     if r.err is not None:
         return [({"kind": "gen-py-raises", "exc": type(r.err).__name__}, repr(r.err)[:400])]
